@@ -10,7 +10,7 @@ pattern of the field (debug build: overflow checks, debug assertions and the uns
 evaluated by vm_compute on the MIR the real front end produced and yields the same run-length encoded tables.
 Every mismatch is a VIOLATION with (definition, site, raw value); so is a panic / abort of the compiled code.
 """
-import collections, json, os, random, re, shutil, subprocess
+import copy, collections, json, os, random, re, shutil, subprocess
 import vlib, adef, l2
 from checks import gen_common
 
@@ -848,7 +848,23 @@ def must_reject_probe(ctx, exe):
             for explicit in (False, True):
                 vs = [V(vname(i), v if (explicit or v != i) else None) for i, v in enumerate(vals)]
                 cfgd = adef.mk_config(register_address_type="u8", default_byte_order="LE")
-                defs.append({"config": cfgd, "objects": [adef.mk_register("Ra", 0, 8, [adef.mk_field("alpha", "uint", 0, w, conv=adef.mk_enum("En", vs, use_try=False))])]})
+                partial = lambda lo: adef.mk_field("alpha", "uint", lo, lo + w, conv=adef.mk_enum("En", copy.deepcopy(vs), use_try=False))
+                defs.append({"config": cfgd, "objects": [adef.mk_register("Ra", 0, 8, [partial(0)])]})
+                if explicit or len(defs) % 3:
+                    continue
+                # the same enum in company: what an EARLIER enum of the object (or of an earlier object, or of the other
+                # direction of a command) is like says nothing about this one (seed C07-8 carried `has_fallback` over
+                # from one enum of an object to the next)
+                fb = lambda nm, k: adef.mk_field(nm, "uint", 4, 6, conv=adef.mk_enum("Pre" + nm.capitalize(), [V("Pa"), V("Pb", k)], use_try=False))
+                full = adef.mk_field("omega", "uint", 6, 7, conv=adef.mk_enum("Full", [V("Fa"), V("Fb")], use_try=False))
+                if w <= 4:
+                    defs.append({"config": cfgd, "objects": [adef.mk_register("Ra", 0, 8, [fb("pre", "default"), partial(0)])]})
+                    defs.append({"config": cfgd, "objects": [adef.mk_register("Ra", 0, 8, [fb("pre", "catch_all"), full, partial(0)])]})
+                    defs.append({"config": cfgd, "objects": [adef.mk_register("Rz", 1, 8, [fb("pre", "default")]),
+                                                              adef.mk_register("Ra", 0, 8, [partial(0)])]})
+                    cfgc = adef.mk_config(register_address_type="u8", command_address_type="u8", default_byte_order="LE")
+                    defs.append({"config": cfgc, "objects": [adef.mk_command("Ca", 0, size_bits_in=8, size_bits_out=8,
+                                                                              fields_in=[fb("pre", "default")], fields_out=[partial(0)])]})
     cases = [{"id": f"r{i}", "syntax": "dsl", "text": adef.to_dsl(d), "name": "Dev", "want": ["facts"]} for i, d in enumerate(defs)]
     res = gen_common.run_gen(ctx, exe, cases, tag="mustrej")
     viol = []
